@@ -121,6 +121,8 @@ class Deriv:
         if expr is None:
             return []
         if isinstance(expr, ForElem):
+            if getattr(expr, 'name', None):
+                return self.sources(self._through_pairing(expr.for_node.target, expr.for_node.iter, expr.name), func, env)
             return self.sources(expr.for_node.iter, func, env)
         if isinstance(expr, TupleElem):
             return self._tuple_elem(expr, func, env)
@@ -265,6 +267,32 @@ class Deriv:
             n = getattr(n, 'parent', None)
         return None, None
 
+    @staticmethod
+    def _through_pairing(target, it, name):
+        """`for i, x in enumerate(XS)` / `for a, b in zip(AS, BS)` (nested too): the iterable whose elements `name` ranges over.
+        Returns `it` itself for a plain target or an iterable that is not such a pairing; an empty tuple for the enumerate counter."""
+        def path_of(t, p):
+            if isinstance(t, ast.Name):
+                return p if t.id == name else None
+            if isinstance(t, (ast.Tuple, ast.List)):
+                for i, e in enumerate(t.elts):
+                    r = path_of(e, p + [i])
+                    if r is not None:
+                        return r
+            return None
+        path = path_of(target, [])
+        while path:
+            if isinstance(it, ast.Call) and isinstance(it.func, ast.Name) and it.func.id == 'enumerate' and it.args:
+                if path[0] == 0:
+                    return ast.Tuple(elts=[], ctx=ast.Load())
+                it, path = it.args[0], path[1:]
+            elif isinstance(it, ast.Call) and isinstance(it.func, ast.Name) and it.func.id == 'zip' and path[0] < len(it.args) \
+                    and not any(isinstance(a, ast.Starred) for a in it.args):
+                it, path = it.args[path[0]], path[1:]
+            else:
+                break
+        return it
+
     def for_binding(self, name_node):
         """innermost `for <name> in X:` whose *body* lexically encloses this use, together with the
         tests of the `if` statements in between: [(test, negated)]"""
@@ -289,7 +317,7 @@ class Deriv:
         name = name_node.id
         comp, g = self.comp_binding(name_node)
         if g is not None:
-            ss = self.sources(g.iter, func, env)
+            ss = self.sources(self._through_pairing(g.target, g.iter, name), func, env)
             # filters of this generator apply to the element wherever it is used inside the
             # comprehension's elt (not inside the ifs themselves: harmless over-approximation)
             for cond in g.ifs:
@@ -299,7 +327,7 @@ class Deriv:
             return []
         loop, conds = self.for_binding(name_node)
         if loop is not None:
-            ss = self.sources(loop.iter, func, env)
+            ss = self.sources(self._through_pairing(loop.target, loop.iter, name), func, env)
             for cond, neg in conds:
                 ss = [s.add_filter((cond, name, func, neg)) for s in ss]
             return ss
